@@ -2,6 +2,7 @@ package keeper
 
 import (
 	"context"
+	"strings"
 
 	"github.com/spf13/cast"
 
@@ -70,7 +71,9 @@ func (k msgServer) VotePubkeysChange(
 	// check if the voter public key already voted or not
 	// a public key can participate in the voting just for one time
 	for _, voter := range proposal.Votes {
-		if voter.PublicKey == voterPubKey {
+		// key strings are trimmed when a proposal installs them, so compare them trimmed:
+		// the same key must not vote again after its stored representation changed.
+		if strings.TrimSpace(voter.PublicKey) == strings.TrimSpace(voterPubKey) {
 			return nil, sdkerrors.Wrapf(
 				sdkerrtypes.ErrInvalidRequest,
 				"vote already set for this pubkey %s",
